@@ -129,7 +129,7 @@ def lean_build(prop_modules, need_driver=True):
             res.driver_ok = rc == 0
             res.build_log += out
             if rc != 0:
-                log("driver build failed:\n" + out[-3000:])
+                raise HarnessError("native driver does not build (model/driver sources or a regenerated Gen/*.lean file):\n" + out[-3000:])
         for mod in prop_modules:
             names = theorem_names(mod)
             res.obligations += names
